@@ -6,7 +6,7 @@
    [runs_exec0] gives the big-step form of Proofs/GoIR2.v.  Symbolic execution of a loop body is then plain
    computation on [exec0], with no fuel to account for.
 
-   Also here: [lookup] / [upd] algebra for frames that are only known through some of their variables. *)
+   Also here: [lookup] / [upd] algebra for frames that are only known through some of their names. *)
 From Coq Require Import List ZArith Bool String Lia Arith.
 From GS Require Import Model.GoIR2 Proofs.GoIR2.
 Import ListNotations.
@@ -147,7 +147,7 @@ Lemma range_go_S : forall run i v get n k st,
   end.
 Proof. intros. reflexivity. Qed.
 
-(* ---- frames known through some of their variables *)
+(* ---- frames known through some of their names *)
 
 Lemma lookup_upd : forall x y v e, lookup x (upd y v e) = if String.eqb x y then Some v else lookup x e.
 Proof.
